@@ -42,6 +42,9 @@ void CanFdMessage64::write(AbstractFile & os) {
     /* pre processing */
     validDataBytes = static_cast<uint8_t>(data.size());
 
+    /* decide once, with the objectSize that also sizes the header: it is recomputed by ObjectHeader::write */
+    const bool extData = hasExtData();
+
     ObjectHeader::write(os);
     os.write(reinterpret_cast<char *>(&channel), sizeof(channel));
     os.write(reinterpret_cast<char *>(&dlc), sizeof(dlc));
@@ -59,7 +62,7 @@ void CanFdMessage64::write(AbstractFile & os) {
     os.write(reinterpret_cast<char *>(&extDataOffset), sizeof(extDataOffset));
     os.write(reinterpret_cast<char *>(&crc), sizeof(crc));
     os.write(reinterpret_cast<char *>(data.data()), static_cast<std::streamsize>(data.size()));
-    if (hasExtData())
+    if (extData)
         CanFdExtFrameData::write(os);
 }
 
